@@ -168,6 +168,8 @@ def sample(bs: list, n: int, seed: int) -> list:
 def make_trace(comp: str, beh: dict, tid: str, variant: int = 0) -> dict:
     if comp == "serial":
         ev = host_sens.serial_trace(beh, variant)
+    elif comp == "utils" and variant:
+        ev = host_sens.utils_trace(beh, offset=UTILS_OFFSETS[variant - 1])
     else:
         ev = COMP[comp]["record"](beh)
     t = {"id": tid, "ev": ev}
@@ -176,6 +178,12 @@ def make_trace(comp: str, beh: dict, tid: str, variant: int = 0) -> dict:
     if comp in ("sensors", "serial"):
         t["cfg"] = beh["cfg"]
     return t
+
+
+# map() is affine in its source axis: map(v + k, lo + k, hi + k, a, b) = map(v, lo, hi, a, b).  Variants 1.. of a Utils behaviour
+# execute every map call translated by a large k (windows that are narrow relative to their offset: timestamps, 2^40 ...);
+# the trace keeps the untranslated arguments, so the specification (exact over 32-bit rationals) stays the judge.
+UTILS_OFFSETS = [10 ** 12, -(2 ** 40), 1_700_000_000_000]
 
 
 def with_universe(comp: str, beh: dict) -> dict:
@@ -256,7 +264,7 @@ def check(run) -> None:
     model_check("utils", "quick" if quick else "full", run)
     behs = generate("utils", "quick" if quick else "full", 1, run)
     walks = sample(dedup(generate("utils", "full", 5 if quick else 8, run, simulate=120 if quick else 2500, seed=s)), 120 if quick else 2500, s)
-    conform("utils", behs + walks, run, "calls")
+    conform("utils", behs + walks, run, "calls", variants=(0, 1, 2, 3))
     # ---- sensors
     model_check("sensors", "quick" if quick else "full", run)
     behs = generate("sensors", "quick", 3, run) if quick else generate("sensors", "full", 2, run) + generate("sensors", "quick", 4, run)
